@@ -29,6 +29,7 @@ RULE = ("case = (peer, transfer kind, payload length, step k, disturbance); ever
         "upload and download. Stale frames that would be a legal response for the current step are not generated "
         "(indistinguishable by protocol). Signature = (peer, kind, length class, step class, disturbance); all non-trivial.")
 RULE += (" " + 'Widened later: lost requests, every loss also with MAX_RETRIES = 2, block uploads from a server without CRC and size announcement, follow-ups as unsized stream / block upload, garbage collection after every disturbed call (no frame after the call ended).')
+RULE += (" " + "Widened later: the foreign-multiplexer response is also delivered for a record member, including the answer for sub-index 0 of the same index.")
 ASSUMPTIONS = ["time-outs are caused only by injected losses (inline delivery); RESPONSE_TIMEOUT 3 ms",
                "a wrong toggle / multiplexer on a *download* response does not change what the server stored: success with the right store is accepted",
                "inside a block sub-block the client may abort with 0x05040000/3/4"]
